@@ -576,6 +576,7 @@ func TestRealReactors(t *testing.T) {
 		for again := 0; again < 2; again++ {
 			r := &draws{t: t, vals: d.vals, replay: true}
 			if verdict = body(t, r); verdict == "" {
+				fmt.Printf("VERIF-NOTE stall seen once, not on re-run: %s => %s\n", caseText, first)
 				ev.Class("real-reactors:stall-not-reproduced-on-rerun")
 				ev.Note("real-reactors stall seen once, not on re-run", caseText+" => "+first)
 				return
